@@ -35,11 +35,13 @@ def all_fields(a):
     return out
 
 
-def r_serde(F, R):
+def r_serde(F, R, only=None):
     if "serde" not in F.features:
         return
     types = serde_types(F)
-    R.floor("R-SERDE", "types with derived Serialize", len(types), 28)
+    if only:
+        types = [t for t in types if t.split("::")[-1] in only]
+    R.floor("R-SERDE", "types with derived Serialize", len(types), 28 if not only else 1)
     for adt in types:
         a = F.adts[adt]
         fields = all_fields(a)
